@@ -302,17 +302,24 @@ func runExchange(tt *testing.T, prop string, tape *simrt.Tape, keep bool) simrt.
 	if maxBody < -1 {
 		maxBody = 0
 	}
-	log.Addf("exchanges=%d redirects=%d name=%q chunked=%v maxBody=%d", n, redirects, name, chunked, maxBody)
+	realFront := tape.Prob(1, 3) // the recording transport as the http scheme handler of a real *http.Transport
+	tmode := tape.Choose(3)
+	log.Addf("exchanges=%d redirects=%d name=%q chunked=%v maxBody=%d targeter=%d", n, redirects, name, chunked, maxBody, tmode)
 	var results []*vegeta.Result
 	var infra string
 	var simTime time.Duration
 	pv := bubble(tt, func() {
 		start := time.Now()
 		client := &http.Client{Transport: &xTransport{xs: xs, err: &infra}}
+		if realFront {
+			tr := &http.Transport{}
+			tr.RegisterProtocol("http", client.Transport)
+			client.Transport = tr
+		}
 		// Client() first: Redirects() installs its policy on the attacker's client
 		atk := vegeta.NewAttacker(vegeta.Client(client), vegeta.Workers(1), vegeta.MaxWorkers(1), vegeta.MaxBody(maxBody), vegeta.Redirects(redirects), vegeta.ChunkedBody(chunked))
 		next := 0
-		targeter := func(t *vegeta.Target) error {
+		targeter := vegeta.Targeter(func(t *vegeta.Target) error {
 			if next >= n {
 				return vegeta.ErrNoTargets
 			}
@@ -322,6 +329,25 @@ func runExchange(tt *testing.T, prop string, tape *simrt.Tape, keep bool) simrt.
 			t.Body = append([]byte(nil), x.target.Body...)
 			t.Header = x.target.Header.Clone()
 			return nil
+		})
+		// the targeters vegeta ships hand the targets over in their own ways (by assignment, or by filling in
+		// the Target they are given): what reaches the transport must not depend on which one is used
+		switch tmode {
+		case 1:
+			ts := make([]vegeta.Target, n)
+			for i, x := range xs {
+				ts[i] = vegeta.Target{Method: x.target.Method, URL: x.target.URL, Body: append([]byte(nil), x.target.Body...), Header: x.target.Header.Clone()}
+			}
+			targeter = vegeta.NewStaticTargeter(ts...)
+		case 2:
+			var doc bytes.Buffer
+			enc := vegeta.NewJSONTargetEncoder(&doc)
+			for _, x := range xs {
+				if err := enc.Encode(&x.target); err != nil {
+					infra = "JSON target encoder: " + err.Error()
+				}
+			}
+			targeter = vegeta.NewJSONTargeter(&doc, nil, nil)
 		}
 		pacer := countPacer(n)
 		for r := range atk.Attack(targeter, pacer, 0, name) {
